@@ -48,7 +48,40 @@ Theorem C04_playback_path : forall auth valid_path tbl, tbl_path_ok tbl = true -
 Proof. exact playback_path. Qed.
 Print Assumptions C04_playback_path.
 
+(* --- the client address: only a configured trusted proxy is believed about it --- *)
+
+(* if Initialize hands the configured proxy list to the engine (proxies_ok), data is only produced for a client admitted
+   at the address the server is ENTITLED to believe: the forwarded one when the peer is a configured trusted proxy,
+   else the peer's own *)
+Theorem C04_guarded_wire : forall auth valid_path tbl, tbl_ok tbl = true -> proxies_ok tbl = true ->
+  forall trusted w req, carries_data (serve_wire auth valid_path tbl trusted w req) = true ->
+  auth (t_action tbl) (if t_withpath tbl then Some (q_path req) else None) (q_creds req) (believed trusted w) = true.
+Proof. exact guarded_wire. Qed.
+Print Assumptions C04_guarded_wire.
+
+Theorem C04_401_empty_wire : forall auth valid_path tbl, tbl_strict tbl = true -> proxies_ok tbl = true ->
+  forall trusted w req,
+  auth (t_action tbl) (if t_withpath tbl then Some (q_path req) else None) (q_creds req) (believed trusted w) = false ->
+  carries_data (serve_wire auth valid_path tbl trusted w req) = false /\
+  status (serve_wire auth valid_path tbl trusted w req) = denied_status valid_path tbl req.
+Proof. exact refused_exact_wire. Qed.
+Print Assumptions C04_401_empty_wire.
+
+(* non-interference: the whole response to a peer that is not a configured trusted proxy is independent of the
+   X-Forwarded-For / X-Real-Ip headers it sends *)
+Theorem C04_forwarded_ignored_when_untrusted : forall auth valid_path tbl, proxies_ok tbl = true ->
+  forall trusted peer f1 f2 req, trusted peer = false ->
+  serve_wire auth valid_path tbl trusted {| w_peer := peer; w_forwarded := f1 |} req =
+  serve_wire auth valid_path tbl trusted {| w_peer := peer; w_forwarded := f2 |} req.
+Proof. exact forwarded_ignored_when_untrusted. Qed.
+Print Assumptions C04_forwarded_ignored_when_untrusted.
+
 (* --- the tables of the current source --- *)
+
+(* every Initialize calls SetTrustedProxies(<configured list>) exactly once, unconditionally *)
+Theorem C04_routes_proxies_set : forallb proxies_ok generated_tables = true.
+Proof. vm_compute. reflexivity. Qed.
+Print Assumptions C04_routes_proxies_set.
 
 Theorem C04_routes_ok : forallb tbl_ok generated_tables = true.
 Proof. vm_compute. reflexivity. Qed.
@@ -93,7 +126,7 @@ Proof. vm_compute. repeat split. Qed.
 Definition ex_auth : elem := {| e_name := "middlewareAuth"; e_body := [HAuth "API" PNone true true] |}.
 Definition ex_handler : elem := {| e_name := "onInfo"; e_body := [HAccess PNone] |}.
 Definition ex_table (regs : list reg) : table :=
-  {| t_server := "api"; t_action := "API"; t_withpath := false; t_root := "router"; t_regs := regs |}.
+  {| t_server := "api"; t_action := "API"; t_withpath := false; t_root := "router"; t_proxies_set := true; t_regs := regs |}.
 
 Example C04_order_matters :
   tbl_ok (ex_table [RUse "router" ex_auth; RRoute "router" "GET" "/info" ex_handler]) = true /\
@@ -109,4 +142,22 @@ Example C04_abort_matters :
   tbl_ok t = false /\
   carries_data (serve (fun _ _ _ _ => false) (fun _ => true) t (ex_req "GET" "/info")) = true /\
   status (serve (fun _ _ _ _ => false) (fun _ => true) t (ex_req "GET" "/info")) = 401%Z.
+Proof. vm_compute. repeat split. Qed.
+
+(* SetTrustedProxies matters: an engine that was not told the (empty) proxy list believes the headers of anybody.
+   auth admits only address [1]; the peer is [7] and trusted by nobody; the headers name [1] *)
+Definition ex_noproxy_table : table :=
+  {| t_server := "api"; t_action := "API"; t_withpath := false; t_root := "router"; t_proxies_set := false;
+     t_regs := [RUse "router" ex_auth; RRoute "router" "GET" "/info" ex_handler] |}.
+Definition ex_only_from_1 : string -> option (list Z) -> creds -> list Z -> bool :=
+  fun _ _ _ ip => match ip with [1%Z] => true | _ => false end.
+
+Example C04_proxies_matter :
+  let spoof := {| w_peer := [7%Z]; w_forwarded := Some [1%Z] |} in
+  let good := ex_table [RUse "router" ex_auth; RRoute "router" "GET" "/info" ex_handler] in
+  tbl_ok ex_noproxy_table = true /\ proxies_ok ex_noproxy_table = false /\
+  carries_data (serve_wire ex_only_from_1 (fun _ => true) ex_noproxy_table (fun _ => false) spoof (ex_req "GET" "/info")) = true /\
+  status (serve_wire ex_only_from_1 (fun _ => true) good (fun _ => false) spoof (ex_req "GET" "/info")) = 401%Z /\
+  (* a configured trusted proxy is believed *)
+  carries_data (serve_wire ex_only_from_1 (fun _ => true) good (fun _ => true) spoof (ex_req "GET" "/info")) = true.
 Proof. vm_compute. repeat split. Qed.
